@@ -149,9 +149,15 @@ func (w *World) Key(name string) []byte {
 		for i := range k {
 			if w.Text {
 				k[i] = printable[w.rng.Intn(len(printable))]
+				if w.rng.Intn(5) == 0 {
+					k[i] = byte(0x80 + w.rng.Intn(0x80)) // high bytes are ordinary key bytes in the text protocol too
+				}
 			} else {
 				k[i] = byte(w.rng.Intn(256))
 			}
+		}
+		if w.Text && n >= 3 && w.rng.Intn(3) == 0 {
+			copy(k[n-2:], []byte{0xc2, 0xa0}) // ... and so is the UTF-8 form of a no-break space, here at the very end
 		}
 		// keep harness bookkeeping simple: no key is a prefix-plus-dash of another
 		if _, dup := w.names[string(k)]; dup {
